@@ -82,6 +82,9 @@ func runOne(id, tier string, fn props.CheckFunc) (code int) {
 			if v.Status == "missed" {
 				fmt.Println("  variant not detected by this property's rules:", v.Name)
 			}
+			if v.Status == "false-alarm" {
+				fmt.Println("  behaviour-preserving variant reported by this property's rules:", v.Name, v.Rule)
+			}
 		}
 	}
 	return r.Finish()
